@@ -617,7 +617,11 @@ func run(c *hx.Ctx) error {
 	}
 
 	// 3. the expression-form dimension (forms.go)
-	return runForms(c)
+	if err := runForms(c); err != nil {
+		return err
+	}
+	// 4. types declared in the template (declared.go)
+	return runDeclared(c)
 }
 
 // oracle says which clause of the property a failing run of a built template breaks ("" if
